@@ -164,9 +164,12 @@ def run_property(ck, b, prop, cfg, tier, seed, replay, t0):
     for v, f in listed:
         print("KNOWN-FINDING: property=%s %s (replay=%s)" % (prop, f["what"], v["replay"]))
     for v, _ in new:
-        print("VIOLATION property=%s replay=%s" % (prop, v["replay"]))
-        print("  oracle: %s" % v["oracle"])
-        print("  " + v["message"].replace("\n", "\n  ")[:1500])
+        print("VIOLATION property=%s replay=%s" % (prop, v["replay"]), flush=True)
+        try:
+            print("  oracle: %s" % v["oracle"])
+            print("  " + v["message"].replace("\n", "\n  ")[:1500], flush=True)
+        except BrokenPipeError:
+            pass
     if new:
         return 1
     if harness_trouble:
